@@ -84,6 +84,12 @@ def plan(tier, seed):
         P.add("realistic", grid=grid, batch=batch, oversamp=ov, width=4, M=M,
               ccls=pick(rngr, ["inside", "inside", "outside"]), cseed=int(rngr.integers(1 << 30)),
               timeout=900)
+    # the same in a process whose numba thread pool has four threads (more than 4096 samples,
+    # a count that is not a multiple of the pool size)
+    for i, (grid, batch, ov, M) in enumerate([([64, 64], [], 1.25, 5003), ([40, 44], [3], 2, 4999)]
+                                             [:1 if quick else 2]):
+        P.add("realistic", grid=grid, batch=batch, oversamp=ov, width=4, M=M, ccls="inside",
+              cseed=int(rngr.integers(1 << 30)), timeout=900, threads=4)
     # histories: the same image size transformed with several (oversamp, width) settings in
     # one process - in particular oversampling factors that round to the same oversampled grid
     # size - then the first setting again: anything cached between calls must be keyed by
